@@ -204,6 +204,29 @@ def beforeWeight (ctx : List Event) (x : Pub) (A : Bytes) (lrs : List (Bytes × 
 def fullEvents (ctx : List Event) (x : Pub) (A : Bytes) (lrs : List (Bytes × Bytes)) (a1 b : Bytes)
     (r1 s1 : Bytes) (d1 : List Bytes) : List Event := beforeWeight ctx x A lrs a1 b r1 s1 d1
 
+/-- width in bytes of the digest of a member's final transcript state that is absorbed into the weight transcript
+    (`append_u64(b"proof", transcript_rng.next_u64())`, src/range_proof.rs:849-851) -/
+def weightDigestBytes : Nat := 8
+
+/-- the weight transcript: one digest per member, in batch order; the weights are drawn from the RNG built on it -/
+def weightEvents (digests : List Bytes) : List Event :=
+  append "dom-sep" "Bulletproofs+ verifier weights".toUTF8.toList :: digests.map (append "proof")
+
+/-- **C08 (every member's digest is under every weight).** -/
+theorem weightEvents_inj (ds ds' : List Bytes) (h : weightEvents ds = weightEvents ds') : ds = ds' := by
+  unfold weightEvents at h
+  simp only [List.cons.injEq, true_and] at h
+  induction ds generalizing ds' with
+  | nil => cases ds' with
+    | nil => rfl
+    | cons _ _ => simp at h
+  | cons d ds ih => cases ds' with
+    | nil => simp at h
+    | cons d' ds' =>
+      simp only [List.map_cons, List.cons.injEq] at h
+      have hd : d = d' := by injection h.1
+      rw [hd, ih ds' h.2]
+
 /-- **C04 (data under a round challenge).** For a fixed caller history, the history in front of round challenge
     `e_j` determines the statement, `A`, and every `L`, `R` up to and including round `j`. -/
 theorem beforeE_inj_data (ctx : List Event) (x x' : Pub) (hx : x.ok) (hx' : x'.ok) (A A' : Bytes)
